@@ -466,6 +466,7 @@ func TestC17Client(t *testing.T) {
 		run.Case(verdict != "inconclusive", evid.Hash(b, len(sc.RPC.OtherClientDCs)), cls...)
 		if err != nil {
 			if strings.HasPrefix(err.Error(), "INFRA:") {
+				run.Class("client-inconclusive:"+strings.SplitN(err.Error()+"                                                  ", "\n", 2)[0][:50], 1)
 				t.Skipf("%v", err)
 			}
 			p := run.Violation(map[string]any{"ClientLevel": c}, err.Error())
